@@ -66,7 +66,7 @@ func caseGen() *rapid.Generator[Case] {
 				st.Target = rapid.IntRange(0, 2).Draw(t, "target")
 				st.Via2 = rapid.IntRange(0, 4).Draw(t, "via2") == 0
 			case "render":
-				st.Via = rapid.SampledFrom([]string{"invoke", "csv"}).Draw(t, "via")
+				st.Via = rapid.SampledFrom([]string{"invoke", "csv", "html", "json", "markdown", "texttable"}).Draw(t, "via")
 			}
 			c.Steps = append(c.Steps, st)
 		}
@@ -129,7 +129,8 @@ func TestEnum(t *testing.T) {
 				c.Steps = append(c.Steps, Step{K: "reg", Owner: r.owner, Ref: -1, Col: 1, When: r.when, Target: r.target})
 			}
 		}
-		c.Steps = append(c.Steps, Step{K: "render", Via: "invoke"}, Step{K: "render", Via: "csv"})
+		vias := []string{"csv", "html", "json", "markdown", "texttable"}
+		c.Steps = append(c.Steps, Step{K: "render", Via: "invoke"}, Step{K: "render", Via: vias[idx%len(vias)]})
 		n++
 		if v := prop.Eval(c); v != nil {
 			t.Fatalf("VIOLATION %s", ID)
